@@ -14,6 +14,10 @@ def configs(ck, nsched):
         pad = (i // len(shapes)) % 2 == 0
         cfg.append((T, pad, pipe_input(r, n, pad), r.randrange(1 << 30), 1 if i % 5 == 4 else 0, 1 if i % 3 == 2 else 0))
         i += 1
+    # long runs: more than 256 / 512 chunks with worker counts that do not divide a power of two (a chunk or slot counter kept in a
+    # narrow integer wraps there and shifts every later chunk to another worker)
+    for T, chunks, pad in ((3, 260, True), (7, 530, False), (5, 300, True)):
+        cfg.append((T, pad, pipe_input(r, 64 * chunks - 7, pad), r.randrange(1 << 30), 0, 0))
     return cfg
 
 
